@@ -457,6 +457,10 @@ func runRollout(r *vs.Rand, i int, seed uint64, out *vs.Out, crash bool) {
 	if r.Chance(35) {
 		sc.ogMode = 1 + r.Intn(2)
 	}
+	vanishRound := -1
+	if replicas >= 2 && r.Chance(30) {
+		vanishRound = changeAt + 1 + r.Intn(replicas)
+	}
 	sickRound, sickKind := -1, 0
 	if r.Chance(60) {
 		// after the first child has moved, while others are still waiting for their turn
@@ -515,6 +519,16 @@ func runRollout(r *vs.Rand, i int, seed uint64, out *vs.Out, crash bool) {
 			} else {
 				sc.w.sim.FaultAt = map[int][2]string{cutK: faultKind}
 			}
+		}
+		if k == vanishRound {
+			// somebody deletes the last child, which is usually still waiting for its turn at the old revision:
+			// it has to come back as that revision wants it
+			c := cfg.Children[0]
+			cns := ""
+			if c.Namespaced {
+				cns = "ns1"
+			}
+			sc.w.sim.Remove(c.group(), c.Resource, cns, fmt.Sprintf("p1-%d", replicas-1))
 		}
 		if k == deleteAt {
 			sc.w.sim.Mutate(parentGroup, cfg.parentResource(), nsOfKey(sc.key), "p1", func(o map[string]interface{}) {
@@ -663,6 +677,29 @@ func runMalformed(r *vs.Rand, i int, seed uint64, out *vs.Out) {
 		}
 		b, _ := json.Marshal(v)
 		return vs.HookAnswer{Code: ans.Code, Headers: ans.Headers, Body: b}
+	}
+	if cfg.Customize && mr.Chance(20) {
+		// the customize hook fails once (500, or an undecodable body), then recovers: the next sync must ask it again and
+		// hand the sync hook the related objects its answer selects
+		bad := vs.HookAnswer{Code: 500, Body: []byte("boom")}
+		if mr.Bool() {
+			bad = vs.HookAnswer{Code: 200, Body: []byte(`{"relatedResources": [`)}
+		}
+		sc.w.hook.Handler = func(name string, req map[string]interface{}) vs.HookAnswer {
+			if name == "customize" {
+				return bad
+			}
+			return base(name, req)
+		}
+		first := sc.syncOnce(i, seed)
+		first["scenario"] = "malformed"
+		out.Line(first)
+		sc.w.hook.Handler = base
+		sc.w.fillCaches()
+		line := sc.syncOnce(i, seed)
+		line["scenario"] = "malformed"
+		out.Line(line)
+		return
 	}
 	if target == "sync" && mr.Chance(12) {
 		sc.w.hook.Handler = func(name string, req map[string]interface{}) vs.HookAnswer {
